@@ -198,29 +198,32 @@ fn cmd_net(args: &[String]) {
             }
         }
     });
+    // scenarios marked "rt":"current" run on a single-threaded runtime (everything on one thread: what the library's tasks
+    // do between two awaits of the application is then deterministic)
+    let rt_cur = tokio::runtime::Builder::new_current_thread().enable_all().build().unwrap();
     let mut f = std::io::BufWriter::new(std::fs::File::create(&out).expect("create out"));
     let mut n = 0usize;
-    rt.block_on(async {
-        for sc in scripts.iter() {
-            let tr = match tokio::time::timeout(std::time::Duration::from_secs(180), net::run_net_scenario(sc, &dir)).await {
+    for sc in scripts.iter() {
+        let run = async {
+            match tokio::time::timeout(std::time::Duration::from_secs(180), net::run_net_scenario(sc, &dir)).await {
                 Ok(t) => t,
                 Err(_) => vec![serde_json::json!({"ev":"reset","scen":sc["scen"],"sock":sc["sock"],"tag":"","fds":0,"tasks":0}), serde_json::json!({"ev":"scenario_timeout"}), serde_json::json!({"ev":"end","tasks_left":0})],
-            };
-            let mut tr = tr;
-            let endev = tr.pop();
-            for p in engine::take_panics() {
-                tr.push(serde_json::json!({"ev":"panic","msg":p}));
             }
-            tr.extend(endev);
-            for mut e in tr {
-                n += 1;
-                engine::sanitize(&mut e);
-                e["i"] = serde_json::json!(n);
-                writeln!(f, "{}", e).unwrap();
-            }
-            f.flush().unwrap();
+        };
+        let mut tr = if sc.get("rt").and_then(|v| v.as_str()) == Some("current") { rt_cur.block_on(run) } else { rt.block_on(run) };
+        let endev = tr.pop();
+        for p in engine::take_panics() {
+            tr.push(serde_json::json!({"ev":"panic","msg":p}));
         }
-    });
+        tr.extend(endev);
+        for mut e in tr {
+            n += 1;
+            engine::sanitize(&mut e);
+            e["i"] = serde_json::json!(n);
+            writeln!(f, "{}", e).unwrap();
+        }
+        f.flush().unwrap();
+    }
     println!("scenarios={} events={}", scripts.len(), n);
 }
 
